@@ -253,8 +253,17 @@ func (e *Env) appendFreeVariables(fvs variables, seen map[Variable]struct{}, t T
 		seen[t] = struct{}{}
 		return append(fvs, t)
 	case Compound:
-		for i := 0; i < t.Arity(); i++ {
-			fvs = e.appendFreeVariables(fvs, seen, t.Arg(i))
+		// The last argument goes in a loop instead of a recursion: a list is nested as deep as it's long, and a few
+		// million elements would overflow the Go stack, which is fatal.
+		for t.Arity() > 0 {
+			for i := 0; i < t.Arity()-1; i++ {
+				fvs = e.appendFreeVariables(fvs, seen, t.Arg(i))
+			}
+			last, ok := e.Resolve(t.Arg(t.Arity() - 1)).(Compound)
+			if !ok {
+				return e.appendFreeVariables(fvs, seen, t.Arg(t.Arity()-1))
+			}
+			t = last
 		}
 	}
 	return fvs
@@ -293,11 +302,22 @@ func (e *Env) unify(x, y Term, occursCheck bool) (*Env, bool) {
 				return e, false
 			}
 			var ok bool
-			for i := 0; i < x.Arity(); i++ {
-				e, ok = e.unify(x.Arg(i), y.Arg(i), occursCheck)
-				if !ok {
-					return e, false
+			// The last arguments go in a loop instead of a recursion: a list is nested as deep as it's long, and a few
+			// million elements would overflow the Go stack, which is fatal.
+			for x.Arity() > 0 {
+				for i := 0; i < x.Arity()-1; i++ {
+					e, ok = e.unify(x.Arg(i), y.Arg(i), occursCheck)
+					if !ok {
+						return e, false
+					}
 				}
+				lx, ly := e.Resolve(x.Arg(x.Arity()-1)), e.Resolve(y.Arg(y.Arity()-1))
+				cx, okx := lx.(Compound)
+				cy, oky := ly.(Compound)
+				if !okx || !oky || cx.Functor() != cy.Functor() || cx.Arity() != cy.Arity() {
+					return e.unify(lx, ly, occursCheck)
+				}
+				x, y = cx, cy
 			}
 			return e, true
 		default:
@@ -328,10 +348,22 @@ func contains(t, s Term, env *Env) bool {
 		if s, ok := s.(Atom); ok && t.Functor() == s {
 			return true
 		}
-		for i := 0; i < t.Arity(); i++ {
-			if contains(t.Arg(i), s, env) {
+		// The last argument goes in a loop instead of a recursion: a list is nested as deep as it's long, and a few
+		// million elements would overflow the Go stack, which is fatal.
+		for t.Arity() > 0 {
+			for i := 0; i < t.Arity()-1; i++ {
+				if contains(t.Arg(i), s, env) {
+					return true
+				}
+			}
+			last, ok := env.Resolve(t.Arg(t.Arity() - 1)).(Compound)
+			if !ok {
+				return contains(t.Arg(t.Arity()-1), s, env)
+			}
+			if s, ok := s.(Atom); ok && last.Functor() == s {
 				return true
 			}
+			t = last
 		}
 		return false
 	default:
